@@ -2,10 +2,8 @@ package headers
 
 // C07 thin: the Range parser against an independent RFC 9110 reference recogniser.
 
-func isDigitB(b byte) bool { return b >= '0' && b <= '9' }
-
-// HarnessRangeNoPanic: parse ∘ SliceSize never panics, for every value "bytes=" ++ s and
-// for every free string.
+// HarnessRangeNoPanic: parse ∘ SliceSize never panics and never yields a slice outside the
+// representation, for every value "bytes=" ++ s and for every free string.
 func HarnessRangeNoPanic() {
 	n := vParam("len", 4)
 	var v string
@@ -28,4 +26,167 @@ func HarnessRangeNoPanic() {
 			}
 		}
 	}, "c07.range-parser-panic")
+}
+
+func refDigit(b byte) bool { return b >= '0' && b <= '9' }
+
+// refNumber reads DIGIT+ at s[i:]; returns value and the index after the digits (i if none).
+func refNumber(s string, i int) (int64, int) {
+	var v int64
+	for i < len(s) && refDigit(s[i]) {
+		v = v*10 + int64(s[i]-'0')
+		i++
+	}
+	return v, i
+}
+
+const (
+	refBad      = 0
+	refFirstLast = 1
+	refFirstOpen = 2
+	refSuffix   = 3
+	refMultiple = 4
+)
+
+// refRangeSpec is the strict RFC 9110 recogniser for the text after "bytes=":
+// int-range = first-pos "-" [last-pos] ; suffix-range = "-" suffix-length ; a following
+// "," announces a range set (multiple ranges).  No optional whitespace.
+func refRangeSpec(s string) (kind int, a, b int64) {
+	if len(s) == 0 {
+		return refBad, 0, 0
+	}
+	if s[0] == '-' {
+		n, j := refNumber(s, 1)
+		if j == 1 {
+			return refBad, 0, 0
+		}
+		if j == len(s) {
+			return refSuffix, n, 0
+		}
+		if s[j] == ',' {
+			return refMultiple, 0, 0
+		}
+		return refBad, 0, 0
+	}
+	first, j := refNumber(s, 0)
+	if j == 0 || j >= len(s) || s[j] != '-' {
+		return refBad, 0, 0
+	}
+	j++
+	if j == len(s) {
+		return refFirstOpen, first, 0
+	}
+	if s[j] == ',' {
+		return refMultiple, 0, 0
+	}
+	last, k := refNumber(s, j)
+	if k == j {
+		return refBad, 0, 0
+	}
+	if k == len(s) {
+		return refFirstLast, first, last
+	}
+	if s[k] == ',' {
+		return refMultiple, 0, 0
+	}
+	return refBad, 0, 0
+}
+
+// HarnessRangeReference: differential check of parse ∘ SliceSize against refRangeSpec.
+func HarnessRangeReference() {
+	n := vParam("len", 4)
+	s := symString(n)
+	size := symInt64()
+	vAssume(size >= 0)
+	kind, a, b := refRangeSpec(s)
+	var rh rangeHeader
+	var perr error
+	if vPanics(func() { rh, perr = parseRangeHeader("bytes=" + s) }) {
+		vReach("panic-outcome") // reported by HarnessRangeNoPanic
+		return
+	}
+	accepted := false
+	var gs, ge int64
+	if perr == nil {
+		var serr error
+		gs, ge, serr = rh.SliceSize(size)
+		accepted = serr == nil
+	}
+	switch kind {
+	case refFirstLast:
+		vReach("ref-first-last")
+		vAssert(perr == nil, "c07.wellformed-rejected-by-parser")
+		if a <= b && b < size {
+			vAssert(accepted && gs == a && ge == b, "c07.wellformed-satisfiable-not-served-exactly")
+		} else if accepted {
+			// out of bounds: a refusal is fine; if served it must be the RFC clamp
+			hi := b
+			if hi > size-1 {
+				hi = size - 1
+			}
+			vAssert(a <= hi && gs == a && ge == hi, "c07.out-of-bounds-served-different-slice")
+		}
+	case refFirstOpen:
+		vReach("ref-first-open")
+		vAssert(perr == nil, "c07.wellformed-rejected-by-parser")
+		if a < size {
+			vAssert(accepted && gs == a && ge == size-1, "c07.wellformed-satisfiable-not-served-exactly")
+		} else {
+			vAssert(!accepted, "c07.out-of-bounds-served-different-slice")
+		}
+	case refSuffix:
+		vReach("ref-suffix")
+		vAssert(perr == nil, "c07.wellformed-rejected-by-parser")
+		if a > 0 && a <= size {
+			vAssert(accepted && gs == size-a && ge == size-1, "c07.wellformed-satisfiable-not-served-exactly")
+		} else if accepted {
+			// suffix longer than the representation may be served as the whole of it
+			vAssert(a > size && size > 0 && gs == 0 && ge == size-1, "c07.out-of-bounds-served-different-slice")
+		}
+	case refMultiple:
+		vReach("ref-multiple")
+		vAssert(perr != nil, "c07.multiple-ranges-accepted")
+	default:
+		vReach("ref-bad")
+		if accepted {
+			vNote("C07 lenient acceptance: a range-spec outside the RFC 9110 grammar (blanks / trailing characters) is served")
+			vAssert(0 <= gs && gs <= ge && ge < size, "c07.slice-inside")
+		}
+	}
+}
+
+// HarnessRangeOverflow: numbers that do not fit int64 must be refused, not wrapped.
+func HarnessRangeOverflow() {
+	L := symRange(vParam("mindigits", 19), vParam("maxdigits", 20))
+	d := symStringN(L)
+	for i := 0; i < len(d); i++ {
+		vAssume(d[i] >= '0')
+		vAssume(d[i] <= '9')
+	}
+	vAssume(d[0] != '0')
+	overflow := L >= 20 || (L == 19 && d > "9223372036854775807")
+	form := symChoice(vParam("forms", 3))
+	var v string
+	switch form {
+	case 0:
+		v = "bytes=" + d + "-"
+	case 1:
+		v = "bytes=-" + d
+	default:
+		v = "bytes=0-" + d
+	}
+	size := symInt64()
+	vAssume(size > 0)
+	accepted := false
+	rh, err := parseRangeHeader(v)
+	if err == nil {
+		_, _, serr := rh.SliceSize(size)
+		accepted = serr == nil
+	}
+	if overflow {
+		vReach("overflowing")
+		vAssert(!accepted, "c07.overflowing-number-served")
+	} else {
+		vReach("fits")
+	}
 }
